@@ -249,8 +249,8 @@ def render_yaml(d):
     def val(v, ind):
         if v["t"] == "s":
             return " " + q(v["s"]) + "\n"
-        if v["t"] == "o":
-            return " 5\n"
+        if v["t"] == "o":           # neither a string nor a list: null ("", "~", "null") or wrong-typed (5, {}, true, 1.5)
+            return " " + v.get("y", "5") + "\n"
         if not v["items"]:
             return " []\n"
         return "\n" + "".join("%s- %s\n" % (ind, q(i) if i is not None else "7") for i in v["items"])
@@ -297,6 +297,10 @@ def render_def(d):
     return "m:" + ";".join("%s=%s" % (k, val(v)) for k, v in d["kvs"])
 
 
+NULLS = ("", "~", "null")
+WRONG_TYPED = ("5", "{}", "true", "1.5", "0")
+
+
 def def_specs(d):
     """(starts, stops, restarts, bad_class) as the documented forms mean them; bad_class names a reason the file is not loadable"""
     f = d["form"]
@@ -324,8 +328,13 @@ def def_specs(d):
             bad = bad or ("schedule-map-unknown-key" if vals else "abstain:unknown-key-without-values")
         elif any(i is None for i in vals):
             bad = bad or "list-item-not-string"
+        elif v["t"] == "o" and v.get("y", "5") not in NULLS:
+            # a wrong-typed value (number, map, bool) under start/stop/restart: the property text does not say whether
+            # such a file is malformed; the monitor does not insist either way, but IF the daemon loads the file its
+            # schedules are exactly those of the other keys ("maybe")
+            bad = bad or "maybe:map-value-wrong-type"
         else:
-            res[k] += vals
+            res[k] += vals          # a key without a value (null) has no schedule of that kind
     return res["start"], res["stop"], res["restart"], bad
 
 
@@ -521,6 +530,62 @@ def gen_sim(rng, cid, flavour):
     return {"k": "sim", "id": cid, "flavour": flavour, "ops": ops}
 
 
+def gen_sim_emptykeys(rng, cid):
+    """schedule maps whose keys are valued, null-valued (`restart:` / `start: ~`), wrong-typed (`stop: 5`, `start: {}`, …),
+    an empty list or absent, in every combination — each file loaded MANY times (daemon restarts, watcher reloads of the
+    same content): Go iterates the schedule map in a random order per load"""
+    base = max(gen_instant(rng), 600)
+    t = base // 60 * 60
+    hour = datetime.datetime.fromtimestamp(t, UTC).hour
+    minute = datetime.datetime.fromtimestamp(t, UTC).minute
+
+    def firing():
+        return rng.choice(["* * * * *", "*/1 * * * *", "* * * * ?", "* %d-%d * * *" % (max(0, hour - 1), min(23, hour + 1)), "* * * * 0-6"])
+
+    def quiet():
+        return "%d %d * * *" % ((minute + 30) % 60, (hour + 12) % 24)
+
+    def value():
+        r = rng.random()
+        if r < 0.32:
+            return {"t": "s", "s": firing()}
+        if r < 0.42:
+            return {"t": "l", "items": [firing()] + ([quiet()] if rng.random() < 0.4 else [])}
+        if r < 0.5:
+            return {"t": "s", "s": quiet()}
+        if r < 0.72:
+            return {"t": "o", "y": rng.choice(NULLS)}
+        if r < 0.9:
+            return {"t": "o", "y": rng.choice(WRONG_TYPED)}
+        return {"t": "l", "items": []}
+    defs = {}
+    for fid in range(1, rng.randint(1, 3) + 1):
+        while True:
+            keys = rng.sample(["start", "stop", "restart"], rng.choice([2, 2, 3, 3]))
+            kvs = [[k, value()] for k in keys]
+            if any(v["t"] == "o" for _, v in kvs) and any(v["t"] in "sl" and v.get("items", [1]) for _, v in kvs):
+                break
+        defs[fid] = {"form": "map", "kvs": kvs}
+        give_name(rng, defs[fid], fid, [fid])
+    if rng.random() < 0.25:         # a list with a non-string element next to them: that file is not loadable
+        defs[len(defs) + 1] = {"form": "map", "kvs": [["start", {"t": "l", "items": [firing(), None]}], ["stop", {"t": "o", "y": ""}]]}
+    ops = [{"op": "file", "fid": f, "def": d} for f, d in defs.items()]
+    alive = False
+    for _ in range(rng.randint(8, 12)):
+        if alive and rng.random() < 0.3:
+            fid = rng.choice(sorted(defs))
+            ops.append({"op": "ev", "kind": "write", "fid": fid})        # same content again: the watcher reloads the file
+        else:
+            if alive and rng.random() < 0.4:
+                t -= 60                                                  # restarted within the minute just run: same tick again
+            ops.append({"op": "boot", "now0": t + rng.randint(0, 59)})
+            alive = True
+        st = {str(f): rng.choice(["n", "r:%d" % (t - 500), "f:%d" % (t - 86400), "c:%d" % (t - 61)]) for f in defs}
+        ops.append({"op": "tick", "susp": [f for f in defs if rng.random() < 0.08], "st": st, "late": rng.choice([0, 1, 61])})
+        t += 60
+    return {"k": "sim", "id": cid, "flavour": "emptykeys", "ops": ops}
+
+
 def corpus():
     """regression cases, always replayed on the real daemon first: the former witnesses of F8 (now: no call), F10 (now:
     exactly one Start), F9 / F26 (now: load errors), same-minute daemon restarts, empty bit set"""
@@ -564,6 +629,13 @@ def corpus():
         {"op": "file", "fid": 2, "def": {"form": "map", "kvs": [["start", {"t": "s", "s": ev}], ["restart", {"t": "s", "s": ev}]], "name": "d1"}},
         {"op": "file", "fid": 3, "def": {"form": "str", "s": ev, "name": "d3"}},
         {"op": "boot", "now0": T + 3}, tick(susp=[1]), tick(susp=[2]), tick(susp=[3]), tick(susp=[1, 2, 3]), tick()]})
+    # keys without a value / with a wrong-typed value have NO schedule of that kind, on every one of many loads
+    ops = [{"op": "file", "fid": 1, "def": {"form": "map", "kvs": [["start", {"t": "s", "s": ev}], ["restart", {"t": "o", "y": ""}]]}},
+           {"op": "file", "fid": 2, "def": {"form": "map", "kvs": [["stop", {"t": "s", "s": ev}], ["start", {"t": "o", "y": "~"}],
+                                                                   ["restart", {"t": "o", "y": "null"}]]}}]
+    for i in range(12):
+        ops += [{"op": "boot", "now0": T + 3 + 4 * i}, tick({"1": "n", "2": "r:%d" % (T - 500)})]
+    c.append({"k": "sim", "id": "w-empty-map-keys", "flavour": "corpus", "ops": ops})
     c.append({"k": "sim", "id": "w-empty-set", "flavour": "corpus", "ops": [
         {"op": "file", "fid": 1, "def": {"form": "str", "s": ", * * * *"}},
         {"op": "boot", "now0": T + 3}, tick({"1": "n"})]})
@@ -698,7 +770,7 @@ def file_class(d):
     st, sp, rs, bad = def_specs(d)
     if bad and bad.startswith("abstain:"):
         return None, bad
-    if bad:
+    if bad and not bad.startswith("maybe:"):
         return False, bad
     verdicts = [py_parse(s) for s in st + sp + rs]
     if any(v == "err" for v in verdicts):
@@ -708,7 +780,23 @@ def file_class(d):
             if (s.startswith("TZ=") or s.startswith("CRON_TZ=")) and " " not in s:
                 return False, "tz-prefix-without-space"
         return None, "non-standard-expression"
+    if bad:
+        return "maybe", bad
     return True, None
+
+
+def leaked_from(d, kind, t, P):
+    """the file is a schedule map whose `kind` key has no value (null / wrong-typed) while a schedule under ANOTHER key matches t"""
+    if d.get("form") != "map":
+        return None
+    if not any(k == kind and v["t"] == "o" for k, v in d["kvs"]):
+        return None
+    for k, v in d["kvs"]:
+        if k != kind and k in ("start", "stop", "restart") and v["t"] in "sl":
+            vals = [v["s"]] if v["t"] == "s" else [i for i in v["items"] if i is not None]
+            if any(isinstance(P(x), PySpec) and P(x).matches(t) for x in vals):
+                return k
+    return None
 
 
 def monitor_sim(chk, c, outs, counters):
@@ -734,10 +822,16 @@ def monitor_sim(chk, c, outs, counters):
         if o["op"] == "boot":
             t = o["now0"] // 60 * 60
             loaded, abstain, bad_present = {}, set(), []
+            got_now = set()
+            if w[2] == "ok" and len(w) > 3 and w[3] != "-":
+                got_now = {int(x) for x in w[3].split(",")}
             for fid, d in sorted(files.items()):
                 ok, why = file_class(d)
                 if ok is None:
                     abstain.add(fid)
+                elif ok == "maybe":
+                    if fid in got_now:          # loaded: then its schedules must be honoured exactly
+                        loaded[fid] = d
                 elif ok:
                     loaded[fid] = d
                 else:
@@ -772,7 +866,7 @@ def monitor_sim(chk, c, outs, counters):
             else:
                 d = files[o["fid"]]
                 ok, why = file_class(d)
-                if ok is None:
+                if ok is None or ok == "maybe":
                     abstain.add(o["fid"]); loaded.pop(o["fid"], None)
                 elif ok:
                     loaded[o["fid"]] = d; abstain.discard(o["fid"])
@@ -786,6 +880,10 @@ def monitor_sim(chk, c, outs, counters):
             continue
         if w[2] == "dead":
             chk.violation("C09:daemon-dead-at-tick", "tick not executed", c); continue
+        if len(w) > 1 and w[1] == "harness-panic":
+            # the daemon's own tick (Scheduler.run -> entryReader.Read -> …) panicked: every DAG of the directory is down
+            chk.violation("C09:daemon-crashes-at-tick", "the scheduler's tick panicked (%s): no DAG is scheduled any more - after files were added / changed in the DAGs directory" % " ".join(w[2:])[:160], c)
+            return
         got_t = int(w[2])
         if got_t != t:
             chk.violation("C09:tick-sequence", "tick %d run, expected minute %d" % (got_t, t), c)
@@ -844,6 +942,10 @@ def monitor_sim(chk, c, outs, counters):
                         chk.violation("C09:started-twice-in-the-minute:latest-run-" + label,
                                       "Start issued for d%d at minute %d although its latest run (status %s) started at %d, i.e. in or after "
                                       "that minute: the minute is run twice" % (fid, t, label, last), c)
+                    elif not mS and leaked_from(d, "start", t, P):
+                        chk.violation("C09:start-not-due:valueless-key-got-another-keys-schedule",
+                                      "Start issued for d%d at a minute no start schedule matches: its `start:` key has no value, the minute "
+                                      "matches its `%s:` schedule (differs from load to load of the same file)" % (fid, leaked_from(d, "start", t, P)), c)
                     else:
                         chk.violation("C09:start-not-due", "Start issued for d%d at %d: matching=%s suspended=%s status=%s" % (fid, t, mS, susp, code), c)
                 if exp_start and nS == 0:
@@ -870,6 +972,10 @@ def monitor_sim(chk, c, outs, counters):
                     if not mT and not susp and running and zero_next(sp):
                         chk.violation("C09:stop-without-match:next-is-zero-time",
                                       "Stop issued for a running DAG at a minute no stop schedule matches (never-firing schedule, zero Next)", c)
+                    elif not mT and leaked_from(d, "stop", t, P):
+                        chk.violation("C09:stop-not-due:valueless-key-got-another-keys-schedule",
+                                      "Stop issued for running d%d at a minute no stop schedule matches: its `stop:` key has no value, the minute "
+                                      "matches its `%s:` schedule (differs from load to load of the same file)" % (fid, leaked_from(d, "stop", t, P)), c)
                     else:
                         chk.violation("C09:stop-not-due", "Stop issued for d%d at %d: matching=%s suspended=%s status=%s" % (fid, t, mT, susp, code), c)
                 if exp_stop and nT == 0:
@@ -883,6 +989,10 @@ def monitor_sim(chk, c, outs, counters):
                 if not mR and not susp and zero_next(rs):
                     chk.violation("C09:restart-without-match:next-is-zero-time",
                                   "Restart issued at a minute no restart schedule matches (never-firing schedule, zero Next) — every minute", c)
+                elif not mR and leaked_from(d, "restart", t, P):
+                    chk.violation("C09:restart-not-due:valueless-key-got-another-keys-schedule",
+                                  "Restart issued for d%d at a minute no restart schedule matches: its `restart:` key has no value, the minute "
+                                  "matches its `%s:` schedule (differs from load to load of the same file)" % (fid, leaked_from(d, "restart", t, P)), c)
                 else:
                     chk.violation("C09:restart-not-due", "Restart issued for d%d at %d: matching=%s suspended=%s" % (fid, t, mR, susp), c)
             if exp_restart and nR == 0:
@@ -968,6 +1078,8 @@ def run(chk, replay):
         flav = ["plain"] * 5 + ["never"] * 2 + ["double"] * 2 + ["invalid"] * 3 + ["events"] * 3 + ["mixed"] * 2
         for i in range(240 * K):
             cases.append(gen_sim(rng, "s%d" % i, flav[i % len(flav)]))
+        for i in range(40 * K):
+            cases.append(gen_sim_emptykeys(rng, "k%d" % i))
         cases.append(watcher_panic_case())      # a loader panic in the watcher goroutine would kill the harness process: must be last
 
     try:
@@ -1066,21 +1178,29 @@ def run(chk, replay):
     counters = {k: 0 for k in ("sim_ticks", "dag_ticks", "dead", "start_calls", "stop_calls", "restart_calls", "start_schedule_matches",
                                "match_but_suspended", "match_but_running", "match_but_started_same_minute", "match_but_started_later",
                                "match_and_due", "stop_schedule_matches", "restart_schedule_matches")}
+    unparsable = []
     for c, ho in zip(cases, houts):
         if c["k"] == "sim":
-            monitor_sim(chk, c, ho, counters)
+            try:
+                monitor_sim(chk, c, ho, counters)
+            except (ValueError, IndexError, KeyError) as e:
+                # answers that do not parse: the harness process crashed inside an earlier case (reported there) and the
+                # lines of the following cases are misaligned
+                unparsable.append(c["id"])
         elif c["k"] == "ticks":
             w = ho[0].split(" ")
             exp = [str(c["now0"] // 60 * 60 + 60 * i) for i in range(len(c["nows"]))]
             if w[1:] != exp:
                 chk.violation("C09:tick-sequence", "real loop ran ticks %s, expected consecutive minutes %s" % (w[1:], exp), c)
             chk.nontrivial.add(("ticks", c["now0"], tuple(c["nows"])))
+    if unparsable:
+        chk.oblige("monitor:every-case-answered-in-the-expected-form", False, "%d cases with unparsable answers (harness crashed mid-stream), e.g. %s" % (len(unparsable), unparsable[:3]))
     dist.update(counters)
     chk.stats = {"cases": len(cases), "distribution": dist,
                  "sim_flavours": {f: sum(1 for c in cases if c.get("flavour") == f) for f in sorted({c.get("flavour") for c in cases if c.get("flavour")})}}
     chk.rule = ("expressions: weighted grammar (values, names in any case, ranges, steps, N/s, lists of 1-4, */s, ?), targeted to fire at a chosen minute, "
                 "never-firing (31 Feb …), leap-day-only, robfig quirks (*-5, +5, empty list items, TZ= prefixes, odd spacing), invalid, random mutations; "
-                "instants 1970-2100 with month ends, leap days, year ends, epoch; daemon cases: 1-5 files (single / list / start-stop-restart map; valid, "
+                "instants 1970-2100 with month ends, leap days, year ends, epoch; daemon cases: 1-5 files (single / list / start-stop-restart map incl. keys without a value (null) or with a wrong-typed value next to valued ones, each such file loaded 8-12 times; valid, "
                 "an explicit `name:` different from / equal to another file's / equal to the own file id, suspended through the flag store by file id, invalid YAML, invalid cron, wrong types, panicking), 1-3 daemon lifetimes (restart in the same minute / "
                 "minutes later / hours-years later), 1-5 ticks each with a wall clock 0 s-67 min late, files added/edited/removed through the real watcher, "
                 "status per DAG per tick: never run / '-' / unreadable / running / EVERY final label (finished, failed, canceled, none-with-start-time) x started in the same minute, ±1 min, hours-years earlier, later; "
